@@ -87,6 +87,31 @@ func (p *Prog) verifyFunction(fn *ssa.Function, con *Contract) (res *FnResult) {
 	}
 	if con != nil {
 		res.Obls = append(res.Obls, p.noReadsObligations(fn, con, res.Fn)...)
+		res.Obls = append(res.Obls, p.onlyWriterObligations(fn, con, res.Fn, e)...)
+	}
+	// `recoverby H`: panics raised after `defer H(...)` are treated as converted into the
+	// error result. Go's recover() only stops a panic when the DEFERRED function itself
+	// calls it, so H must be deferred directly (not called from inside another deferred
+	// function); what runs before the defer is checked for panics as usual.
+	if con != nil && con.RecoverBy != "" && !con.Extern && !con.Trusted {
+		direct := false
+		for _, b := range fn.Blocks {
+			for _, ins := range b.Instrs {
+				if d, ok := ins.(*ssa.Defer); ok {
+					k := p.calleeKey(fn, &d.Call)
+					if k == con.RecoverBy {
+						direct = true
+					}
+				}
+			}
+		}
+		o := &Obligation{Name: res.Fn + "#recoverby:" + con.RecoverBy, Kind: "recoverby", Fn: res.Fn, Props: con.Props, Solver: "structural", Result: "unsat",
+			Src: "the recover handler " + con.RecoverBy + " is deferred directly by this function"}
+		if !direct {
+			o.Result = "sat"
+			o.Src = "the contract names " + con.RecoverBy + " as the recover handler, but the function does not defer it directly: a handler called from inside another deferred function cannot recover (recover() returns nil there) and the panic escapes to the caller"
+		}
+		res.Obls = append(res.Obls, o)
 	}
 	for n := range e.notes {
 		res.Notes = append(res.Notes, n)
@@ -371,6 +396,118 @@ func (p *Prog) noReadsObligations(fn *ssa.Function, con *Contract, disp string) 
 			} else {
 				o.Result = "unsat"
 				o.Src = fmt.Sprintf("no selection of %s in the function or the %d repo functions it reaches through static calls (%s); calls through interfaces are not followed", fld, nfn-1, nr.Label)
+			}
+			out = append(out, o)
+		}
+	}
+	return out
+}
+
+// onlyWriterObligations decides `onlywriter` directives structurally: no other
+// repo function stores to the field (stores into an object the storing
+// function has just allocated itself - composite literals - are
+// initialisation and exempt), and every store to it in this function has an
+// `at call store#k assert` hook, so the condition under which it is written
+// is an obligation.
+func (p *Prog) onlyWriterObligations(fn *ssa.Function, con *Contract, disp string, e *Enc) []*Obligation {
+	var out []*Obligation
+	for _, nr := range con.OnlyWriter {
+		props := nr.Props
+		if len(props) == 0 {
+			props = con.Props
+		}
+		for _, fld := range nr.Fields {
+			i := strings.LastIndex(fld, ".")
+			name := disp + "#onlywriter:" + fld
+			var st *types.Struct
+			if i > 0 {
+				if ty := p.lookupQualifiedType(fld[:i]); ty != nil {
+					st, _ = ty.Underlying().(*types.Struct)
+				}
+			}
+			idx := -1
+			if st != nil {
+				for j := 0; j < st.NumFields(); j++ {
+					if st.Field(j).Name() == fld[i+1:] {
+						idx = j
+					}
+				}
+			}
+			if idx < 0 {
+				out = append(out, &Obligation{Name: name, Kind: "onlywriter", Fn: disp, Props: props, Solver: "structural", Result: "sat",
+					Src: "onlywriter: " + fld + " is not a field of a struct type of the program"})
+				continue
+			}
+			isField := func(a ssa.Value) (*ssa.FieldAddr, bool) {
+				fa, ok := a.(*ssa.FieldAddr)
+				if !ok || fa.Field != idx {
+					return nil, false
+				}
+				xt := fa.X.Type()
+				if pt, ok := xt.Underlying().(*types.Pointer); ok {
+					xt = pt.Elem()
+				}
+				s2, ok := xt.Underlying().(*types.Struct)
+				return fa, ok && s2 == st
+			}
+			var bad []string
+			var keys []string
+			for k := range p.funcs {
+				keys = append(keys, k)
+			}
+			sort.Strings(keys)
+			for _, k := range keys {
+				g := p.funcs[k]
+				if !p.inRepo(g) || g.Blocks == nil {
+					continue
+				}
+				ord := 0
+				for _, b := range g.Blocks {
+					for _, ins := range b.Instrs {
+						stIns, ok := ins.(*ssa.Store)
+						if !ok {
+							continue
+						}
+						hookable := false
+						switch stIns.Addr.(type) {
+						case *ssa.IndexAddr, *ssa.FieldAddr:
+							hookable = true
+						}
+						myOrd := ord
+						if hookable {
+							ord++
+						}
+						fa, ok := isField(stIns.Addr)
+						if !ok {
+							continue
+						}
+						if al, isAlloc := fa.X.(*ssa.Alloc); isAlloc && al.Heap {
+							continue // initialising an object this function has just allocated
+						}
+						if g != fn {
+							bad = append(bad, p.fnDisplay(g)+" stores to it at "+p.fset.Position(ins.Pos()).String())
+							continue
+						}
+						key := fmt.Sprintf("store#%d", myOrd)
+						hooked := false
+						for _, h := range con.AtCalls[key] {
+							if h.Kind == "assert" {
+								hooked = true
+							}
+						}
+						if !hooked {
+							bad = append(bad, fmt.Sprintf("%s of this function (at %s) stores to it without an `at call %s assert` hook", key, p.fset.Position(ins.Pos()).String(), key))
+						}
+					}
+				}
+			}
+			o := &Obligation{Name: name, Kind: "onlywriter", Fn: disp, Props: props, Solver: "structural"}
+			if len(bad) > 0 {
+				o.Result = "sat"
+				o.Src = "field " + fld + ": " + strings.Join(bad, "; ") + " (" + nr.Label + ")"
+			} else {
+				o.Result = "unsat"
+				o.Src = "no other repo function stores to " + fld + " (initialisation of freshly allocated objects aside) and every store in this function is under a hooked assertion (" + nr.Label + ")"
 			}
 			out = append(out, o)
 		}
